@@ -167,6 +167,9 @@ def run(repo: Repo, rep: Report, tier: str) -> None:
     from . import c15
     c15.run(repo, rep, tier, only_completion=True, names={"overhead-count": "completion-marker", "overhead": "completion-marker", "order-flags": "completion-marker", "one-pdv": "completion-marker"})
 
+    # ---- the transport writes every byte of every fragment ------------------------------------
+    check_send_loop(repo, rep, "write-complete")
+
     # ---- single writer / single caller -----------------------------------------
     n_w = 0
     for m in repo.modules.values():
@@ -190,6 +193,104 @@ def run(repo: Repo, rep: Report, tier: str) -> None:
     # ---- reader ------------------------------------------------------------------
     dec = repo.func("dimse_messages", "DIMSEMessage.decode_msg")
     check_reader_presence(repo, rep, "reader")
+
+
+def written_from_stream(fn: ast.FunctionDef, call: ast.Call) -> bool:
+    """the argument of this socket write is the stream parameter, a view of it, or a slice of either"""
+    bp = fn.args.args[1].arg
+    views = {bp}
+    for s_ in walk_no_nested(fn):
+        if isinstance(s_, ast.Assign) and isinstance(s_.targets[0], ast.Name) and isinstance(s_.value, ast.Call) and dotted(s_.value.func) in ("memoryview", "bytes", "bytearray") and s_.value.args and norm(s_.value.args[0]) in views:
+            views.add(s_.targets[0].id)
+    arg = call.args[0] if call.args else None
+    if isinstance(arg, ast.Name) and arg.id not in views:
+        defs = [a for a in walk_no_nested(fn) if isinstance(a, ast.Assign) and norm(a.targets[0]) == arg.id]
+        arg = defs[0].value if len(defs) == 1 else None
+    if isinstance(arg, ast.Name):
+        return arg.id in views
+    return isinstance(arg, ast.Subscript) and norm(arg.value) in views
+
+
+def check_send_loop(repo: Repo, rep: Report, rule: str) -> None:
+    """AssociationSocket.send(): socket.send() may accept fewer bytes than it was given (a socket with a
+    timeout, a signal, a full send buffer). The loop must go on from where the socket stopped: the progress
+    counter advances by the value send() returned and by nothing else, the next write starts at the counter,
+    and the loop ends only when the counter reaches the length of the stream."""
+    rep.rule(rule, "AssociationSocket.send advances by what socket.send() returned and resumes there until the whole stream is written")
+    tr = repo.mod("transport")
+    fn = repo.func("transport", "AssociationSocket.send")
+    fq = "transport.AssociationSocket.send"
+    bp = fn.args.args[1].arg
+    sends = [c for c in walk_no_nested(fn) if isinstance(c, ast.Call) and isinstance(c.func, ast.Attribute) and c.func.attr in ("send", "sendall") and norm(c.func.value) in ("self.socket", "sock", "self.socket.socket")]
+    rep.need(len(sends) >= 1, f"{fq}: no socket write found")
+    # names that are the stream or a view of it
+    views = {bp}
+    for s_ in walk_no_nested(fn):
+        if isinstance(s_, ast.Assign) and isinstance(s_.targets[0], ast.Name) and isinstance(s_.value, ast.Call) and dotted(s_.value.func) in ("memoryview", "bytes", "bytearray") and s_.value.args and norm(s_.value.args[0]) in views:
+            views.add(s_.targets[0].id)
+    lens = {f"len({v})" for v in views}
+    for s_ in walk_no_nested(fn):
+        if isinstance(s_, ast.Assign) and isinstance(s_.targets[0], ast.Name) and norm(s_.value) in lens:
+            lens.add(s_.targets[0].id)
+    n = 0
+    for c in sends:
+        n += 1
+        st = enclosing(c, (ast.stmt,))
+        if c.func.attr == "sendall":
+            ok = c.args and norm(c.args[0]) in views
+            rep.check(ok, rule, fq, st, "sendall() must be given the whole stream", mod=tr, node=c)
+            continue
+        loop = enclosing(c, (ast.While,))
+        if loop is None or enclosing(loop, (ast.FunctionDef,)) is not fn:
+            rep.fail(rule, fq, st, "socket.send() outside a loop: a short write leaves the rest of the stream unsent and the peer never completes the message", mod=tr, node=c)
+            continue
+        # the counter: the name compared with the stream's length in the loop test
+        t = loop.test
+        counter = None
+        if isinstance(t, ast.Compare) and len(t.ops) == 1:
+            l_, r_ = norm(t.left), norm(t.comparators[0])
+            if isinstance(t.ops[0], (ast.Lt, ast.NotEq)) and r_ in lens and isinstance(t.left, ast.Name):
+                counter = l_
+            elif isinstance(t.ops[0], (ast.Gt, ast.NotEq)) and l_ in lens and isinstance(t.comparators[0], ast.Name):
+                counter = r_
+        if counter is None:
+            rep.defer(f"{fq}: the send loop's test `{norm(t)}` is not `<counter> < <length of the stream>`")
+            continue
+        # what send() returned
+        result = None
+        direct = False
+        if isinstance(st, ast.Assign) and st.value is c and isinstance(st.targets[0], ast.Name):
+            result = st.targets[0].id
+        elif isinstance(st, ast.AugAssign) and st.value is c and norm(st.target) == counter and isinstance(st.op, ast.Add):
+            direct = True
+        else:
+            rep.fail(rule, fq, st, "the number of bytes socket.send() accepted is not kept: after a short write the loop cannot know where the socket stopped, the rest of that block never reaches the peer and the message is never completed", mod=tr, node=c)
+            continue
+        # every update of the counter inside the loop adds exactly that value
+        ups = [u for u in ast.walk(loop) if (isinstance(u, ast.AugAssign) and norm(u.target) == counter) or (isinstance(u, ast.Assign) and any(norm(x) == counter for x in u.targets))]
+        good = bool(ups)
+        for u in ups:
+            if isinstance(u, ast.AugAssign) and isinstance(u.op, ast.Add) and ((direct and u.value is c) or (result is not None and norm(u.value) == result)):
+                continue
+            if isinstance(u, ast.Assign) and result is not None and norm(u.value) in (f"{counter} + {result}", f"{result} + {counter}"):
+                continue
+            good = False
+            rep.fail(rule, fq, u, f"the progress counter is advanced by `{norm(u.value)}` and not by the number of bytes socket.send() returned: after a short write the unsent tail of the block is skipped - part of a PDU never reaches the peer, no exception is raised and the peer never completes the message", mod=tr, node=u)
+        if not ups:
+            rep.fail(rule, fq, loop, "the send loop never advances its counter", mod=tr, node=loop)
+        # the write resumes at the counter
+        arg = c.args[0] if c.args else None
+        if isinstance(arg, ast.Name) and arg.id not in views:
+            defs = [a for a in ast.walk(loop) if isinstance(a, ast.Assign) and norm(a.targets[0]) == arg.id]
+            arg = defs[0].value if len(defs) == 1 else None
+        resumes = isinstance(arg, ast.Subscript) and norm(arg.value) in views and isinstance(arg.slice, ast.Slice) and arg.slice.lower is not None and norm(arg.slice.lower) == counter and arg.slice.step is None
+        if resumes and arg.slice.upper is not None:
+            up = arg.slice.upper
+            resumes = isinstance(up, ast.BinOp) and isinstance(up.op, ast.Add) and counter in (norm(up.left), norm(up.right))
+        rep.check(bool(resumes), rule, fq, f"send({norm(c.args[0]) if c.args else ''}) resumes at {counter}", "each write must start at the first byte the socket has not accepted yet (a slice of the stream from the counter on)", mod=tr, node=c)
+        if good and resumes:
+            rep.ok(rule, f"{fq} :: counter {counter}", "advanced by send()'s return value only")
+    rep.floor("socket writes in AssociationSocket.send", n, 1)
 
 
 def _pdv_header(st: ast.AST):
